@@ -23,6 +23,8 @@ pub struct ECfg {
     pub gated_effect: bool,
     pub client_tasks: u32,
     pub perturb: u8,
+    /// more than a thousand effects pending at once (all parked or queued behind parked ones)
+    pub flood: bool,
 }
 
 const S_FOLLOW_PLAIN: u32 = 0;
@@ -72,7 +74,17 @@ pub fn gen(rng: &mut Rng, tiny: bool) -> ECfg {
         }
         scripts.push(sc);
     }
+    let flood = !tiny && rng.chance(1, 60);
+    if flood {
+        // one producer, 1100 actions, each returning one Task effect that waits at the gate
+        let mut sc = Script::plain();
+        sc.eff[0] = Some(EffSpec { kind: EK_TASK, follow_script: 0, n_follow: 0, panic: false, gate: 1 });
+        scripts.truncate(2);
+        scripts.push(sc);
+        return ECfg { cap: 16, n_red, n_mw: 0, n_prod: 1, per_prod: 1100, scripts, quiesce: true, gated_effect: true, client_tasks: 0, perturb: 0, flood };
+    }
     ECfg {
+        flood,
         cap: *rng.pick(&[1usize, 2, 5, 16]),
         n_red,
         n_mw,
@@ -105,6 +117,7 @@ pub fn describe(c: &ECfg) -> J {
         ("effect_scripts", J::A(c.scripts.iter().skip(2).map(|s| J::s(format!("[{}] remove={:?}", eff(s), &s.mw_remove[..c.n_mw as usize]))).collect())),
         ("mode", J::s(if c.quiesce { "stop after all effects and follow-ups were observed" } else { "stop right after the producers returned (backlog)" })),
         ("gated_effect", J::B(c.gated_effect)),
+        ("flood_of_pending_effects", J::B(c.flood)),
         ("client_tasks", J::U(c.client_tasks as u64)),
     ])
 }
